@@ -104,6 +104,12 @@ CHECKS = {
         note="An arc deviation beyond the 12-digit bound but inside the six-digit envelope is the known finding KF-ARC-D-6DIGITS (pinned by test_svg_example14). Leading fragments without a move and subpath views without a move of their own cannot carry their start point in d(): counted as not applicable.",
         ref="5/C07",
     ),
+    "C03": dict(
+        technique="property-based testing: grammar-directed SVG documents x parser configurations against an independent reference renderer, plus the reify=True/False metamorphic relation",
+        text="Generated documents over svg/g/defs/use (nested use, use of groups, forward references)/the seven shape elements/nested svg with viewBox and preserveAspectRatio, transforms on any element, px/pt/pc/in and percentage attributes, display:none subtrees, crossed with ppi, caller width/height (numbers or lengths) and caller transform. For both reify settings the rendered shapes must be the reference's, in document order, each abs(Path(shape)) pointwise equal to the chapter-10 decomposition mapped through caller transform x viewport transforms x ancestor transforms x use translate; nothing from defs, display:none or unreferenced definitions. Exploration.",
+        note="Reference renderer in harness/ref/docref.py (uses the C04 transform algebra, the C11 viewport algorithm, the C06 decompositions and the C01 path interpreter of the harness). Disputed or library-default sub-domains are not generated (listed in the evidence assumptions); inch-family translations are the known finding KF-TRANSFORM-MIXED-UNITS (two witness documents).",
+        ref="5/C03",
+    ),
 }
 
 REASON_PENDING = "no check registered yet in this build; the design (DESIGN.md section 5) covers it with property-based testing"
